@@ -25,7 +25,7 @@ type Obligation struct {
 	Hyp    Term // path condition
 	Goal   Term // must hold under Hyp
 	Script *Script
-	Inline bool // generated inside an inlined callee
+	Inline bool  // generated inside an inlined callee
 	Ante   *Term // antecedent of an implication-shaped goal (for the vacuity cover)
 	// results
 	Status string // unsat (discharged) | sat | unknown | timeout
@@ -91,6 +91,8 @@ type Exec struct {
 	private       []Term // refs of non-escaping local cells (all frames)
 	noRestore     map[string]bool
 	privateAllocs []privAlloc
+	skolems       map[string]Term
+	instCands     map[string][]Term
 	inRequires    bool
 	lkRequired    map[string]bool
 	lkInit        map[string]bool
@@ -208,6 +210,23 @@ func (ex *Exec) getFrom(heap map[string]Term, comp, sort string) Term {
 		return t
 	}
 	return ex.sc.declare("pre:"+comp, sort)
+}
+
+// skolemFor: one constant per quantified clause (keyed by its text) of the function under verification.
+func (ex *Exec) skolemFor(key, sort string) Term {
+	if ex.skolems == nil {
+		ex.skolems = map[string]Term{}
+	}
+	if t, ok := ex.skolems[key]; ok {
+		return t
+	}
+	t := ex.sc.freshConst("sk", sort)
+	ex.skolems[key] = t
+	if ex.instCands == nil {
+		ex.instCands = map[string][]Term{}
+	}
+	ex.instCands[sort] = append(ex.instCands[sort], t)
+	return t
 }
 
 type privAlloc struct {
